@@ -550,7 +550,7 @@ def compile_observed(ast, uri="uri.feature", idgen=None):
     before = copy.deepcopy(doc)
     comp = Compiler(idgen or IdGenerator())
     try:
-        with cpu_budget(120):
+        with cpu_budget(30):
             pickles = comp.compile(doc)
         status = "ok"
         res = pickles
